@@ -355,6 +355,8 @@ class SymTimedelta:
         if isinstance(o, _rdt.timedelta): return z3.IntVal(td_us(o))
         return None
     def __add__(self, o):
+        if isinstance(o, SymDatetime): return o + self
+        if isinstance(o, _rdt.datetime): return SymDatetime(z3.IntVal(o.toordinal()), z3.IntVal(tod_us(o))) + self
         z = self._o(o)
         return NotImplemented if z is None else SymTimedelta(self.us + z)
     __radd__ = __add__
